@@ -663,7 +663,16 @@ class SmallSet {
   }
 
   void grow() {
-    _set.insert(std::make_move_iterator(_vec.begin()), std::make_move_iterator(_vec.end()));
+    try {
+      _set.insert(std::make_move_iterator(_vec.begin()), std::make_move_iterator(_vec.end()));
+    } catch (...) {
+      // Stay in a consistent small state: move back the elements that have already been transferred to the set
+      // (they are the first ones of the vector, which does not need to be ordered).
+      for (miterator it = _vec.begin(); !_set.empty(); ++it) {
+        *it = std::move(_set.extract(_set.begin()).value());
+      }
+      throw;
+    }
     _vec.clear();
   }
 
